@@ -101,6 +101,22 @@ def forcing_file_names(sc) -> list[str]:
     return [f"forcing_{k:03d}.nc" for k in range(nfiles)]
 
 
+def time_units(sc):
+    """unit and reference time of ocean_time in the forcing files (seconds or whole hours)"""
+    tu = sc["frames"].get("time_units", "epoch")
+    if tu == "epoch":
+        return "seconds", truth.EPOCH
+    if tu == "y2000":
+        return "seconds", np.datetime64("2000-01-01T00:00:00", "s")
+    if tu == "hours":
+        tref = np.datetime64("1990-01-01T00:00:00", "s")
+        secs = [int((t - tref) / np.timedelta64(1, "s")) for t in truth.frame_times(sc)]
+        if all(x % 3600 == 0 for x in secs):
+            return "hours", tref
+        return "seconds", tref
+    raise ValueError(tu)
+
+
 def write_forcing_file(path: Path, sc, frames: list[int], times=None) -> None:
     """times: optional override of the ocean_time values (epoch seconds) for faults"""
     ftimes = truth.frame_times(sc)
@@ -108,7 +124,6 @@ def write_forcing_file(path: Path, sc, frames: list[int], times=None) -> None:
         _write_grid_vars(nc, sc)
         nc.createDimension("ocean_time", None)
         tv = nc.createVariable("ocean_time", "f8", ("ocean_time",))
-        tv.units = "seconds since 1970-01-01 00:00:00"
         packed = sc["frames"].get("storage", "f4") == "i2"
         dt_ = "i2" if packed else "f4"
         uv = nc.createVariable("u", dt_, ("ocean_time", "s_rho", "eta_u", "xi_u"))
@@ -120,21 +135,32 @@ def write_forcing_file(path: Path, sc, frames: list[int], times=None) -> None:
                 var.scale_factor = np.float32(truth.pack_scale(sc, comp))
                 var.add_offset = np.float32(0.0)
         svars = {}
+        spacked = bool(sc["frames"].get("scalar_packed"))
         for name in truth.scalar_names(sc):
+            pk = spacked and name != "w"
             svars[name] = nc.createVariable(
-                name, "f4", ("ocean_time", "s_rho", "eta_rho", "xi_rho")
+                name, "i2" if pk else "f4", ("ocean_time", "s_rho", "eta_rho", "xi_rho")
             )
             svars[name].set_auto_maskandscale(False)
+            if pk:   # value = add_offset + scale_factor * stored, exactly the float32 ground truth
+                svars[name].scale_factor = np.float32(0.0625)
+                svars[name].add_offset = np.float32(truth.scalar_offset(name))
+        unit, tref = time_units(sc)
+        tv.units = f"{unit} since {str(tref).replace('T', ' ')}"
+        per = {"seconds": 1, "hours": 3600}[unit]
         for n, f in enumerate(frames):
             if times is not None:
                 tv[n] = times[n]
             else:
-                tv[n] = float((ftimes[f] - truth.EPOCH) / np.timedelta64(1, "s"))
+                tv[n] = float((ftimes[f] - tref) / np.timedelta64(1, "s")) / per
             a, b, _ = truth.stored_uv(sc, f)
             uv[n] = a
             vv[n] = b
             for name, var in svars.items():
-                var[n] = truth.truth_scalar(sc, name, f).astype(np.float32)
+                if spacked and name != "w":
+                    var[n] = truth.scalar_ident(sc, f).astype(np.int16)
+                else:
+                    var[n] = truth.truth_scalar(sc, name, f).astype(np.float32)
 
 
 # --------------------------------------------------------------------------
@@ -149,11 +175,23 @@ def release_columns(sc) -> list[str]:
     cols += ["lon", "lat"] if rel.get("use_lonlat") else ["X", "Y"]
     cols.append("Z")
     cols += [c["name"] for c in rel.get("extra", [])]
+    order = rel.get("col_order")
+    if order:      # a permutation of the column positions
+        assert sorted(order) == list(range(len(cols))), (order, cols)
+        cols = [cols[k] for k in order]
     return cols
 
 
-def _fmt_time(t: np.datetime64) -> str:
-    return str(t)  # ISO: 2000-01-01T00:00:00
+def _fmt_time(t: np.datetime64, style: str = "T") -> str:
+    s = str(t)  # ISO: 2000-01-01T00:00:00
+    if style == "space":
+        return '"' + s.replace("T", " ") + '"'
+    if style == "short":
+        if s.endswith("T00:00:00"):
+            return s[:10]
+        if s.endswith(":00"):
+            return s[:-3]
+    return s
 
 
 def release_row_time(sc, row) -> np.datetime64:
@@ -168,13 +206,14 @@ def write_release_file(path: Path, sc) -> None:
     lines = []
     if rel.get("header", True):
         lines.append(" ".join(cols))
-    for row in rel["rows"]:
+    styles = rel.get("time_styles") or ["T"]
+    for k, row in enumerate(rel["rows"]):
         items = []
         for c in cols:
             if c == "mult":
                 items.append(str(int(row.get("mult", 1))))
             elif c == "release_time":
-                items.append(_fmt_time(release_row_time(sc, row)))
+                items.append(_fmt_time(release_row_time(sc, row), styles[k % len(styles)]))
             elif c in ("X", "Y", "Z", "lon", "lat"):
                 items.append(repr(float(row[c])))
             else:
